@@ -148,7 +148,7 @@ func c13Scenario(clients []gridClient) *explore.Scenario {
 func c13Scenarios(thorough bool) []*explore.Scenario {
 	n := 2
 	if thorough {
-		n = 8
+		n = 64
 	}
 	return []*explore.Scenario{c13Scenario(gridClients(n, thorough))}
 }
